@@ -460,10 +460,12 @@ def shared_only_profile(rng):
     return prof
 
 
-def exhausted_quota_profile(rng, n=2):
-    """bullet votes for candidates that leave early: the exhausted pile grows to several quotas"""
-    x = rng.randint(0, 3)
-    votes = [[[0], str(40 + x)], [[1, 2], '9'], [[2], '8'], [[3], '7'], [[4], '6'], [[5, 1], '5']]
+def exhausted_quota_profile(rng, n=4):
+    """bullet votes only, four seats: two winners with large surpluses and nine losers eliminated one by one - the exhausted pile
+    passes two Droop quotas (74 of 182..184 votes, quota 37) while counts still go on"""
+    x = rng.randint(0, 2)
+    votes = [[[0], str(60 + x)], [[1], '50']] + [[[c], str(c + 2)] for c in range(2, 11)]
+    rng.shuffle(votes)
     return votes
 
 
